@@ -9,6 +9,7 @@
        cb (the caller's callback as a function of (host name, key whose fingerprint it is shown)):
           VL [VN 0; VN b] constant | VL [VN 1; key] only that fingerprint | VL [VN 2; VN sel] only that host name
           | VL [VN 3; VN sel; key] both
+   run (VL [VN 3; VL [VL [cfg; oracle]; ...]]) -> VL [VL [VL events; VN result; detail]; ...]   a history of connects (Auth.ssh_history)
    run (VL [VN 2; tcfg; toracle]) -> VL [VL events; VN result; VL []]      TLSSession.connect
      tcfg   = VL [VN host; VN certfile; VN protocol; VN check_hostname; VN ca_given; VN server_hostname]
      toracle= VL [VN load_cert; VN load_ca; VN connect_ok; VN handshake_ok; VN hello_ok]   (load: 0 ok, 1 SSLError, 2 IOError)
@@ -71,18 +72,43 @@ Definition enc_detail (r : result) : val :=
 Definition enc_out (tr : trace * result) : val :=
   VL [VL (map enc_event (fst tr)); enc_result (snd tr); enc_detail (snd tr)].
 
-Definition run (v : val) : val :=
-  match v with
-  | VL [VN 1; VL [ver; kh; pn; ucb; pcb; kf; ag; lk; pw; subs; fb];
-              VL [kex; sk; cb; loads; nag; ndk; auths; opens; sbs; hk]] =>
-      enc_out (ssh_connect
-        {| c_verify := unB ver; c_known_hosts := map dec_entry (unL kh); c_pin := dec_pin pn;
+Definition dec_ssh (cfgv orcv : val) : option (ssh_cfg * ssh_oracle) :=
+  match cfgv, orcv with
+  | VL [ver; kh; pn; ucb; pcb; kf; ag; lk; pw; subs; fb], VL [kex; sk; cb; loads; nag; ndk; auths; opens; sbs; hk] =>
+      Some ({| c_verify := unB ver; c_known_hosts := map dec_entry (unL kh); c_pin := dec_pin pn;
            c_user_cb := unB ucb; c_profile_cb := unB pcb; c_key_files := un_nat kf;
            c_allow_agent := unB ag; c_look_for_keys := unB lk; c_password := unB pw;
-           c_subsystems := map unVB (unL subs); c_exec_fallback := unB fb |}
-        {| o_kex_ok := unB kex; o_server_key := dec_key sk; o_cb := dec_cb cb; o_loads := map unB (unL loads);
+           c_subsystems := map unVB (unL subs); c_exec_fallback := unB fb |},
+            {| o_kex_ok := unB kex; o_server_key := dec_key sk; o_cb := dec_cb cb; o_loads := map unB (unL loads);
            o_agent_keys := un_nat nag; o_default_keys := un_nat ndk; o_auths := map unB (unL auths);
            o_opens := map unB (unL opens); o_subs := map unB (unL sbs); o_hello_ok := unB hk |})
+  | _, _ => None
+  end.
+
+(* one history step [VL [cfg; oracle]]; the known_hosts content inside cfg is the file's content at that connect *)
+Fixpoint dec_steps (l : list val) : option (list (ssh_cfg * ssh_oracle)) :=
+  match l with
+  | [] => Some []
+  | VL [cfgv; orcv] :: r =>
+      match dec_ssh cfgv orcv, dec_steps r with
+      | Some co, Some cos => Some (co :: cos)
+      | _, _ => None
+      end
+  | _ => None
+  end.
+
+Definition run (v : val) : val :=
+  match v with
+  | VL [VN 1; cfgv; orcv] =>
+      match dec_ssh cfgv orcv with
+      | Some co => enc_out (ssh_connect (fst co) (snd co))
+      | None => verr 1
+      end
+  | VL [VN 3; VL steps] =>
+      match dec_steps steps with
+      | Some cos => VL (map enc_out (ssh_history cos))
+      | None => verr 1
+      end
   | VL [VN 2; VL [h; cf; pr; ch; ca; sh]; VL [lc; lca; cn; hs; hk]] =>
       enc_out (tls_connect
         {| t_host_given := unB h; t_certfile_given := unB cf; t_protocol_given := unB pr;
